@@ -58,6 +58,7 @@ const CA: &[(&str, &str, &str)] = &[("c", "[int]", "[0]")];
 const CS: &[(&str, &str, &str)] = &[("c", "string", "\"a\"")];
 const CF: &[(&str, &str, &str)] = &[("c", "float", "1.5")];
 const CU: &[(&str, &str, &str)] = &[("c", "int|float|string", "1")];
+const CANY: &[(&str, &str, &str)] = &[("c", "any", "0")];
 
 /// a thread whose program is one atomic cell operation
 macro_rules! one {
@@ -155,6 +156,12 @@ fn cases() -> Vec<Case> {
         case("call through cells: the argument writes the cell", C0, "i1 := (n: int) -> int { return n }; f := mut i1; i2 := (n: int) -> int { return n * 10 }; bump := () -> int { f = i2; return 1 }; shared := (f, bump)", &[("(*(shared.0))((shared.1)())", &["h := *(shared.0)", "a := (shared.1)()", "h(a)"]), ("(*(shared.0))(3)", &["h := *(shared.0)", "h(3)"])], None, false),
         case("cell read next to an operand that writes the cell", C5, "shared := () -> int { c += 1; return 1 }", &[("*c + shared()", &["t := *c", "u := shared()", "t + u"]), one!("c *= 2")], None, false),
         case("array cell indexed by an expression that writes the cell", CA, "shared := () -> int { c += [1]; return 0 }", &[("(*c)[shared()]", &["t := *c", "i := shared()", "t[i]"]), one!("c += [2]")], None, false),
+        // 12. one function value reached by several threads through a cell of content type `any`:
+        //     whatever a function value keeps about itself (its type, say) is asked for the first
+        //     time by two threads at once (OnceLock is a scheduling point in the instrumented copy)
+        case("shared function value: type arm in two threads", CANY, "c = (x: int) -> int { return x + 1 }", &[one!("match *c { q: (int) -> int => 1, => 0, }"), one!("match *c { q: (int) -> int => 1, => 0, }")], None, false),
+        case("shared function value: if-set and type filter", CANY, "c = (x: int, y: int, z: int) -> int { return x }", &[one!("if q: (int, int, int) -> int = *c { 1 } else { 0 }"), one!("std.len([*c]~ ? (int, int, int) -> int $])")], None, false),
+        case("shared function value: mapped with and tested", CANY, "c = (x: int) -> int { return x + 1 }", &[("{ g := *c; if q: (int) -> int = g { [1]~ @ q $] } else { [] } }", &["g := *c", "if q: (int) -> int = g { [1]~ @ q $] } else { [] }"]), one!("match *c { q: (any) -> int => 2, q: (int) -> any => 1, => 0, }")], None, false),
         // deeper thorough-only explorations
         case("three threads, two ops each (bound 2)", C0, "", &[("{ c += 1; c *= 2 }", &["c += 1", "c *= 2"]), ("{ c += 3; c -= 1 }", &["c += 3", "c -= 1"]), ("{ c *= 3; c += 5 }", &["c *= 3", "c += 5"])], Some(2), true),
         case("two threads, four ops each (bound 3)", C0, "", &[("{ c += 1; c *= 2; c -= 3; c += 7 }", &["c += 1", "c *= 2", "c -= 3", "c += 7"]), ("{ c *= 5; c += 2; c /= 2; c -= 1 }", &["c *= 5", "c += 2", "c /= 2", "c -= 1"])], Some(3), true),
@@ -335,6 +342,27 @@ fn run_case_child(index: usize) -> i32 {
     builder.preemption_bound = case.bound;
     builder.max_branches = 100_000;
     let start = Instant::now();
+    // warm-up: one sequential run of every thread's program in a model of its own, so that
+    // whatever the process keeps from one run to the next (lazily built helpers, memos inside
+    // long-lived values) is in the same state in every execution the explorer compares
+    {
+        let cw = case.clone();
+        let mut warm = loom::model::Builder::new();
+        warm.max_branches = 100_000;
+        warm.check(move || {
+            let cw = cw.clone();
+            big(move || {
+                let env = fresh_env(&cw);
+                for (t, _) in cw.threads {
+                    if let Ok(code) = Code::parse(&env.interp, t) {
+                        let _ = run_one(&code);
+                    }
+                }
+            })
+            .join()
+            .expect("warm-up failed");
+        });
+    }
     let c2 = case.clone();
     builder.check(move || {
         let c3 = c2.clone();
